@@ -413,6 +413,10 @@ def run_call(c):
         e = tr.estimate_diffusion(q["method"], max_lag=q["L"], localization_variance=q["lv"],
                                   variance_of_localization_variance=q["vlv"])
         return show_est(e) + " " + ("N" if q["method"] == "cve" else str(int(e.num_lags)))
+    if op == "glsupd" and not hasattr(me, "_update_gls_estimate"):
+        # a private helper that no anchor names: when a refactoring renames / re-signs it the step is still run inside every
+        # GLS fit (op est); nothing to compare here
+        return "helper-unavailable"
     if op == "glsupd" and gls_weight(c) is None:
         return "singular"
     if op == "glsupd":
@@ -631,7 +635,7 @@ def agree(case, i, ia, ma):
                 # (GLS: np.linalg.inv of the covariance matrix in doubles vs exact elimination, iterated)
                 return False
         return True
-    if op == "glsupd" and ma == "singular":
+    if op == "glsupd" and (ma == "singular" or ia == "helper-unavailable"):
         return True  # kappa*mu - lam^2 = 0 exactly (or no inverse): the step divides by zero, nothing is determined
     if op in AUTO_OPS and ma == "tie":
         # the model reports that a sign / floor the lag search branches on is decided by the last bits of a double
@@ -978,6 +982,8 @@ def oracle_glsupd(case, a):
     the matrix the library computes must be symmetric (hypothesis of gls_normal_equations)"""
     w = gls_weight(calls_of(case)[0])
     if w is None:
+        return None
+    if a == "helper-unavailable":
         return None
     if not a.startswith("ok "):
         return f"_update_gls_estimate raised {a}"
@@ -2115,7 +2121,7 @@ def _cases(tier, rng):
     yield from glsupd_scope(quick)
     yield from est_scope(quick)
     r = rng.fork("c09-gls")  # the GLS iteration itself: tracks of 3..7 points without missing frames (exact elimination in the model)
-    for i in range(8 if quick else 400):
+    for i in range(8 if quick else 120):
         sub = r.fork(i)
         n = sub.choice([3, 4, 5, 5, 6] + ([6] if quick else [7, 7]))
         sig, step = sub.choice([0.0, 0.3, 1.0, 3.0]), sub.choice([0.0, 0.25, 1.0])
@@ -2128,7 +2134,7 @@ def _cases(tier, rng):
         yield {"stream": "random", "kind": "est", "subseed": i, "frames": list(range(f0, f0 + n)), "coords": coords,
                "px": sub.choice(EXACT_PX), "dt": sub.choice(DTS), "blur": 0, "fdtype": sub.choice(FDTYPES), "reqs": reqs}
     r = rng.fork("c09-est")  # the dispatcher on random tracks: a few requests each, mostly valid ones
-    for i in range(40 if quick else 600):
+    for i in range(40 if quick else 300):
         sub = r.fork(i)
         c = gen_track_case(sub, 20)
         n = len(c["frames"])
@@ -2143,7 +2149,7 @@ def _cases(tier, rng):
         yield {"stream": "random", "kind": "est", "subseed": i, "frames": c["frames"], "coords": c["coords"], "px": c["px"],
                "dt": c["dt"], "blur": c["blur"], "fdtype": sub.choice(FDTYPES), "reqs": reqs}
     r = rng.fork("c09-glsupd")
-    for i in range(60 if quick else 1200):
+    for i in range(60 if quick else 600):
         sub = r.fork(i)
         K = sub.choice([2, 2, 3, 4, 5, 6, sub.randint(2, 10)])
         n = K + sub.choice([1, 1, 1, 2, 5, sub.randint(1, 40)])  # K = n - 1: all lags of a track without missing frames
